@@ -300,6 +300,15 @@ def _ref_backsig_step(pgpy, body, alg, secret, pub, uid_octets, cfg, step, case,
         res = K.verify(sk)
         return bool(res), len(list(res.good_signatures)), len(list(res.bad_signatures))
 
+    # values PGPy refuses to represent (e.g. an unassigned algorithm id in a preference list) make it reject the signature
+    # packet as such, embedded or not; that refusal is tolerated here exactly as for top-level signatures
+    try:
+        alone = pgpy.PGPSignature.from_blob(encode_packet(2, emb))
+        _ = alone.type, alone.created, alone.signer
+    except Exception as e:
+        ctx.probe('rejected_at_parse')
+        ctx.event(step['id'], 'ref_backsig', 'rejected', type(e).__name__)
+        return
     ctx.probe('embedded_back_signature')
     ctx.checked()
     try:
